@@ -996,9 +996,14 @@ class err_ele(err_node):
         if map_node.parent.is_composite():
             self.ele_pos = map_node.parent.seq
             self.subele_pos = map_node.seq
+            seg_node = map_node.parent.parent
         else:
             self.ele_pos = map_node.seq
             self.subele_pos = None
+            seg_node = map_node.parent
+        # the segment the element belongs to: the node of an interchange, group or
+        # set holds the element errors of its header and of its trailer
+        self.seg_id = getattr(seg_node, 'id', None)
         self.repeat_pos = None
 
         #self.bad_val = bad_val
